@@ -185,3 +185,153 @@ Section DocScope.
   Definition module_value (defaults options header : dict) (d : str) : option value :=
     or_else (header_setting d header) (or_else (get d (rev options)) (get d defaults)).
 End DocScope.
+
+(* ---------- the documented directive tables ----------
+   Which decorators describe only the decorated object, and where a directive may appear, are
+   part of the documented behaviour (docs/src/userguide/source_files_and_compilation.rst,
+   "Compiler directives" / "Locally": the listed behaviour directives can be set by header, option,
+   decorator or with statement and apply to all the enclosed code; the signature / type
+   declaration decorators -- cfunc, ccall, cclass, inline, returns, exceptval, final, internal,
+   freelist, no_gc ... -- describe the function or class they are written on).  The tables below
+   are written from that documentation, NOT generated: Prop/C41.v proves (finite, by computation)
+   that the tables of the running compiler coincide with them. *)
+Definition doc_immediate : list str :=
+  [[99; 102; 117; 110; 99] (* cfunc *);
+   [99; 99; 97; 108; 108] (* ccall *);
+   [99; 99; 108; 97; 115; 115] (* cclass *);
+   [100; 97; 116; 97; 99; 108; 97; 115; 115; 101; 115; 46; 100; 97; 116; 97; 99; 108; 97; 115; 115] (* dataclasses.dataclass *);
+   [117; 102; 117; 110; 99] (* ufunc *);
+   [105; 110; 108; 105; 110; 101] (* inline *);
+   [101; 120; 99; 101; 112; 116; 118; 97; 108] (* exceptval *);
+   [114; 101; 116; 117; 114; 110; 115] (* returns *);
+   [119; 105; 116; 104; 95; 103; 105; 108] (* with_gil *);
+   [102; 114; 101; 101; 108; 105; 115; 116] (* freelist *);
+   [110; 111; 95; 103; 99] (* no_gc *);
+   [110; 111; 95; 103; 99; 95; 99; 108; 101; 97; 114] (* no_gc_clear *);
+   [116; 121; 112; 101; 95; 118; 101; 114; 115; 105; 111; 110; 95; 116; 97; 103] (* type_version_tag *);
+   [102; 105; 110; 97; 108] (* final *);
+   [97; 117; 116; 111; 95; 112; 105; 99; 107; 108; 101] (* auto_pickle *);
+   [105; 110; 116; 101; 114; 110; 97; 108] (* internal *);
+   [99; 111; 108; 108; 101; 99; 116; 105; 111; 110; 95; 116; 121; 112; 101] (* collection_type *);
+   [116; 111; 116; 97; 108; 95; 111; 114; 100; 101; 114; 105; 110; 103] (* total_ordering *);
+   [116; 101; 115; 116; 95; 102; 97; 105; 108; 95; 105; 102; 95; 112; 97; 116; 104; 95; 101; 120; 105; 115; 116; 115] (* test_fail_if_path_exists *);
+   [116; 101; 115; 116; 95; 97; 115; 115; 101; 114; 116; 95; 112; 97; 116; 104; 95; 101; 120; 105; 115; 116; 115] (* test_assert_path_exists *);
+   [116; 101; 115; 116; 95; 98; 111; 100; 121; 95; 110; 101; 101; 100; 115; 95; 101; 120; 99; 101; 112; 116; 105; 111; 110; 95; 104; 97; 110; 100; 108; 105; 110; 103] (* test_body_needs_exception_handling *)].
+
+Definition doc_behaviour : list str :=
+  [[98; 111; 117; 110; 100; 115; 99; 104; 101; 99; 107] (* boundscheck *);
+   [119; 114; 97; 112; 97; 114; 111; 117; 110; 100] (* wraparound *);
+   [99; 100; 105; 118; 105; 115; 105; 111; 110] (* cdivision *);
+   [99; 100; 105; 118; 105; 115; 105; 111; 110; 95; 119; 97; 114; 110; 105; 110; 103; 115] (* cdivision_warnings *);
+   [110; 111; 110; 101; 99; 104; 101; 99; 107] (* nonecheck *);
+   [105; 110; 105; 116; 105; 97; 108; 105; 122; 101; 100; 99; 104; 101; 99; 107] (* initializedcheck *);
+   [111; 118; 101; 114; 102; 108; 111; 119; 99; 104; 101; 99; 107] (* overflowcheck *);
+   [111; 118; 101; 114; 102; 108; 111; 119; 99; 104; 101; 99; 107; 46; 102; 111; 108; 100] (* overflowcheck.fold *);
+   [101; 109; 98; 101; 100; 115; 105; 103; 110; 97; 116; 117; 114; 101] (* embedsignature *);
+   [101; 109; 98; 101; 100; 115; 105; 103; 110; 97; 116; 117; 114; 101; 46; 102; 111; 114; 109; 97; 116] (* embedsignature.format *);
+   [98; 105; 110; 100; 105; 110; 103] (* binding *);
+   [97; 108; 119; 97; 121; 115; 95; 97; 108; 108; 111; 119; 95; 107; 101; 121; 119; 111; 114; 100; 115] (* always_allow_keywords *);
+   [97; 108; 108; 111; 119; 95; 110; 111; 110; 101; 95; 102; 111; 114; 95; 101; 120; 116; 101; 110; 115; 105; 111; 110; 95; 97; 114; 103; 115] (* allow_none_for_extension_args *);
+   [112; 114; 111; 102; 105; 108; 101] (* profile *);
+   [108; 105; 110; 101; 116; 114; 97; 99; 101] (* linetrace *);
+   [105; 110; 102; 101; 114; 95; 116; 121; 112; 101; 115] (* infer_types *);
+   [105; 110; 102; 101; 114; 95; 116; 121; 112; 101; 115; 46; 118; 101; 114; 98; 111; 115; 101] (* infer_types.verbose *);
+   [97; 110; 110; 111; 116; 97; 116; 105; 111; 110; 95; 116; 121; 112; 105; 110; 103] (* annotation_typing *);
+   [99; 112; 111; 119] (* cpow *);
+   [99; 95; 97; 112; 105; 95; 98; 105; 110; 111; 112; 95; 109; 101; 116; 104; 111; 100; 115] (* c_api_binop_methods *);
+   [117; 110; 114; 97; 105; 115; 97; 98; 108; 101; 95; 116; 114; 97; 99; 101; 98; 97; 99; 107; 115] (* unraisable_tracebacks *);
+   [97; 117; 116; 111; 95; 99; 112; 100; 101; 102] (* auto_cpdef *);
+   [99; 97; 108; 108; 115; 112; 101; 99] (* callspec *);
+   [102; 97; 115; 116; 95; 103; 101; 116; 97; 116; 116; 114] (* fast_getattr *);
+   [112; 121; 50; 95; 105; 109; 112; 111; 114; 116] (* py2_import *);
+   [114; 101; 109; 111; 118; 101; 95; 117; 110; 114; 101; 97; 99; 104; 97; 98; 108; 101] (* remove_unreachable *);
+   [115; 104; 111; 119; 95; 112; 101; 114; 102; 111; 114; 109; 97; 110; 99; 101; 95; 104; 105; 110; 116; 115] (* show_performance_hints *);
+   [111; 112; 116; 105; 109; 105; 122; 101; 46; 105; 110; 108; 105; 110; 101; 95; 100; 101; 102; 110; 111; 100; 101; 95; 99; 97; 108; 108; 115] (* optimize.inline_defnode_calls *);
+   [111; 112; 116; 105; 109; 105; 122; 101; 46; 117; 110; 112; 97; 99; 107; 95; 109; 101; 116; 104; 111; 100; 95; 99; 97; 108; 108; 115] (* optimize.unpack_method_calls *);
+   [111; 112; 116; 105; 109; 105; 122; 101; 46; 117; 110; 112; 97; 99; 107; 95; 109; 101; 116; 104; 111; 100; 95; 99; 97; 108; 108; 115; 95; 105; 110; 95; 112; 121; 105; 110; 105; 116] (* optimize.unpack_method_calls_in_pyinit *);
+   [111; 112; 116; 105; 109; 105; 122; 101; 46; 117; 115; 101; 95; 115; 119; 105; 116; 99; 104] (* optimize.use_switch *);
+   [119; 97; 114; 110; 46; 117; 110; 100; 101; 99; 108; 97; 114; 101; 100] (* warn.undeclared *);
+   [119; 97; 114; 110; 46; 117; 110; 114; 101; 97; 99; 104; 97; 98; 108; 101] (* warn.unreachable *);
+   [119; 97; 114; 110; 46; 109; 97; 121; 98; 101; 95; 117; 110; 105; 110; 105; 116; 105; 97; 108; 105; 122; 101; 100] (* warn.maybe_uninitialized *);
+   [119; 97; 114; 110; 46; 117; 110; 117; 115; 101; 100] (* warn.unused *);
+   [119; 97; 114; 110; 46; 117; 110; 117; 115; 101; 100; 95; 97; 114; 103] (* warn.unused_arg *);
+   [119; 97; 114; 110; 46; 117; 110; 117; 115; 101; 100; 95; 114; 101; 115; 117; 108; 116] (* warn.unused_result *);
+   [119; 97; 114; 110; 46; 109; 117; 108; 116; 105; 112; 108; 101; 95; 100; 101; 99; 108; 97; 114; 97; 116; 111; 114; 115] (* warn.multiple_declarators *);
+   [119; 97; 114; 110; 46; 100; 101; 112; 114; 101; 99; 97; 116; 101; 100; 46; 68; 69; 70] (* warn.deprecated.DEF *);
+   [119; 97; 114; 110; 46; 100; 101; 112; 114; 101; 99; 97; 116; 101; 100; 46; 73; 70] (* warn.deprecated.IF *)].
+
+Definition doc_scopes : list (str * list str) :=
+  [([97; 117; 116; 111; 95; 112; 105; 99; 107; 108; 101] (* auto_pickle *), [[109; 111; 100; 117; 108; 101] (* module *); [99; 99; 108; 97; 115; 115] (* cclass *)]);
+   ([102; 105; 110; 97; 108] (* final *), [[99; 99; 108; 97; 115; 115] (* cclass *); [102; 117; 110; 99; 116; 105; 111; 110] (* function *)]);
+   ([99; 99; 111; 109; 112; 108; 101; 120] (* ccomplex *), [[109; 111; 100; 117; 108; 101] (* module *)]);
+   ([99; 111; 108; 108; 101; 99; 116; 105; 111; 110; 95; 116; 121; 112; 101] (* collection_type *), [[99; 99; 108; 97; 115; 115] (* cclass *)]);
+   ([110; 111; 103; 105; 108] (* nogil *), [[102; 117; 110; 99; 116; 105; 111; 110] (* function *); [119; 105; 116; 104; 32; 115; 116; 97; 116; 101; 109; 101; 110; 116] (* with statement *)]);
+   ([103; 105; 108] (* gil *), [[119; 105; 116; 104; 32; 115; 116; 97; 116; 101; 109; 101; 110; 116] (* with statement *)]);
+   ([119; 105; 116; 104; 95; 103; 105; 108] (* with_gil *), [[102; 117; 110; 99; 116; 105; 111; 110] (* function *)]);
+   ([99; 114; 105; 116; 105; 99; 97; 108; 95; 115; 101; 99; 116; 105; 111; 110] (* critical_section *), [[102; 117; 110; 99; 116; 105; 111; 110] (* function *); [119; 105; 116; 104; 32; 115; 116; 97; 116; 101; 109; 101; 110; 116] (* with statement *)]);
+   ([105; 110; 108; 105; 110; 101] (* inline *), [[102; 117; 110; 99; 116; 105; 111; 110] (* function *)]);
+   ([99; 102; 117; 110; 99] (* cfunc *), [[102; 117; 110; 99; 116; 105; 111; 110] (* function *); [119; 105; 116; 104; 32; 115; 116; 97; 116; 101; 109; 101; 110; 116] (* with statement *)]);
+   ([99; 99; 97; 108; 108] (* ccall *), [[102; 117; 110; 99; 116; 105; 111; 110] (* function *); [119; 105; 116; 104; 32; 115; 116; 97; 116; 101; 109; 101; 110; 116] (* with statement *)]);
+   ([114; 101; 116; 117; 114; 110; 115] (* returns *), [[102; 117; 110; 99; 116; 105; 111; 110] (* function *)]);
+   ([101; 120; 99; 101; 112; 116; 118; 97; 108] (* exceptval *), [[102; 117; 110; 99; 116; 105; 111; 110] (* function *)]);
+   ([108; 111; 99; 97; 108; 115] (* locals *), [[102; 117; 110; 99; 116; 105; 111; 110] (* function *)]);
+   ([115; 116; 97; 116; 105; 99; 109; 101; 116; 104; 111; 100] (* staticmethod *), [[102; 117; 110; 99; 116; 105; 111; 110] (* function *)]);
+   ([110; 111; 95; 103; 99; 95; 99; 108; 101; 97; 114] (* no_gc_clear *), [[99; 99; 108; 97; 115; 115] (* cclass *)]);
+   ([110; 111; 95; 103; 99] (* no_gc *), [[99; 99; 108; 97; 115; 115] (* cclass *)]);
+   ([105; 110; 116; 101; 114; 110; 97; 108] (* internal *), [[99; 99; 108; 97; 115; 115] (* cclass *)]);
+   ([99; 99; 108; 97; 115; 115] (* cclass *), [[99; 108; 97; 115; 115] (* class *); [99; 99; 108; 97; 115; 115] (* cclass *); [119; 105; 116; 104; 32; 115; 116; 97; 116; 101; 109; 101; 110; 116] (* with statement *)]);
+   ([97; 117; 116; 111; 116; 101; 115; 116; 100; 105; 99; 116] (* autotestdict *), [[109; 111; 100; 117; 108; 101] (* module *)]);
+   ([97; 117; 116; 111; 116; 101; 115; 116; 100; 105; 99; 116; 46; 97; 108; 108] (* autotestdict.all *), [[109; 111; 100; 117; 108; 101] (* module *)]);
+   ([97; 117; 116; 111; 116; 101; 115; 116; 100; 105; 99; 116; 46; 99; 100; 101; 102] (* autotestdict.cdef *), [[109; 111; 100; 117; 108; 101] (* module *)]);
+   ([115; 101; 116; 95; 105; 110; 105; 116; 105; 97; 108; 95; 112; 97; 116; 104] (* set_initial_path *), [[109; 111; 100; 117; 108; 101] (* module *)]);
+   ([116; 101; 115; 116; 95; 97; 115; 115; 101; 114; 116; 95; 112; 97; 116; 104; 95; 101; 120; 105; 115; 116; 115] (* test_assert_path_exists *), [[102; 117; 110; 99; 116; 105; 111; 110] (* function *); [99; 108; 97; 115; 115] (* class *); [99; 99; 108; 97; 115; 115] (* cclass *)]);
+   ([116; 101; 115; 116; 95; 102; 97; 105; 108; 95; 105; 102; 95; 112; 97; 116; 104; 95; 101; 120; 105; 115; 116; 115] (* test_fail_if_path_exists *), [[102; 117; 110; 99; 116; 105; 111; 110] (* function *); [99; 108; 97; 115; 115] (* class *); [99; 99; 108; 97; 115; 115] (* cclass *)]);
+   ([116; 101; 115; 116; 95; 97; 115; 115; 101; 114; 116; 95; 99; 95; 99; 111; 100; 101; 95; 104; 97; 115] (* test_assert_c_code_has *), [[109; 111; 100; 117; 108; 101] (* module *)]);
+   ([116; 101; 115; 116; 95; 102; 97; 105; 108; 95; 105; 102; 95; 99; 95; 99; 111; 100; 101; 95; 104; 97; 115] (* test_fail_if_c_code_has *), [[109; 111; 100; 117; 108; 101] (* module *)]);
+   ([116; 101; 115; 116; 95; 98; 111; 100; 121; 95; 110; 101; 101; 100; 115; 95; 101; 120; 99; 101; 112; 116; 105; 111; 110; 95; 104; 97; 110; 100; 108; 105; 110; 103] (* test_body_needs_exception_handling *), [[119; 105; 116; 104; 32; 115; 116; 97; 116; 101; 109; 101; 110; 116] (* with statement *)]);
+   ([102; 114; 101; 101; 108; 105; 115; 116] (* freelist *), [[99; 99; 108; 97; 115; 115] (* cclass *)]);
+   ([102; 111; 114; 109; 97; 108; 95; 103; 114; 97; 109; 109; 97; 114] (* formal_grammar *), [[109; 111; 100; 117; 108; 101] (* module *)]);
+   ([101; 109; 105; 116; 95; 99; 111; 100; 101; 95; 99; 111; 109; 109; 101; 110; 116; 115] (* emit_code_comments *), [[109; 111; 100; 117; 108; 101] (* module *)]);
+   ([99; 95; 115; 116; 114; 105; 110; 103; 95; 116; 121; 112; 101] (* c_string_type *), [[109; 111; 100; 117; 108; 101] (* module *)]);
+   ([99; 95; 115; 116; 114; 105; 110; 103; 95; 101; 110; 99; 111; 100; 105; 110; 103] (* c_string_encoding *), [[109; 111; 100; 117; 108; 101] (* module *)]);
+   ([116; 121; 112; 101; 95; 118; 101; 114; 115; 105; 111; 110; 95; 116; 97; 103] (* type_version_tag *), [[109; 111; 100; 117; 108; 101] (* module *); [99; 99; 108; 97; 115; 115] (* cclass *)]);
+   ([108; 97; 110; 103; 117; 97; 103; 101; 95; 108; 101; 118; 101; 108] (* language_level *), [[109; 111; 100; 117; 108; 101] (* module *)]);
+   ([111; 108; 100; 95; 115; 116; 121; 108; 101; 95; 103; 108; 111; 98; 97; 108; 115] (* old_style_globals *), [[109; 111; 100; 117; 108; 101] (* module *)]);
+   ([110; 112; 95; 112; 121; 116; 104; 114; 97; 110] (* np_pythran *), [[109; 111; 100; 117; 108; 101] (* module *)]);
+   ([112; 114; 101; 108; 105; 109; 105; 110; 97; 114; 121; 95; 108; 97; 116; 101; 95; 105; 110; 99; 108; 117; 100; 101; 115; 95; 99; 121; 50; 56] (* preliminary_late_includes_cy28 *), [[109; 111; 100; 117; 108; 101] (* module *)]);
+   ([102; 97; 115; 116; 95; 103; 105; 108] (* fast_gil *), [[109; 111; 100; 117; 108; 101] (* module *)]);
+   ([105; 116; 101; 114; 97; 98; 108; 101; 95; 99; 111; 114; 111; 117; 116; 105; 110; 101] (* iterable_coroutine *), [[109; 111; 100; 117; 108; 101] (* module *); [102; 117; 110; 99; 116; 105; 111; 110] (* function *)]);
+   ([116; 114; 97; 115; 104; 99; 97; 110] (* trashcan *), [[99; 99; 108; 97; 115; 115] (* cclass *)]);
+   ([116; 111; 116; 97; 108; 95; 111; 114; 100; 101; 114; 105; 110; 103] (* total_ordering *), [[99; 108; 97; 115; 115] (* class *); [99; 99; 108; 97; 115; 115] (* cclass *)]);
+   ([100; 97; 116; 97; 99; 108; 97; 115; 115; 101; 115; 46; 100; 97; 116; 97; 99; 108; 97; 115; 115] (* dataclasses.dataclass *), [[99; 108; 97; 115; 115] (* class *); [99; 99; 108; 97; 115; 115] (* cclass *)]);
+   ([99; 112; 112; 95; 108; 111; 99; 97; 108; 115] (* cpp_locals *), [[109; 111; 100; 117; 108; 101] (* module *); [102; 117; 110; 99; 116; 105; 111; 110] (* function *); [99; 99; 108; 97; 115; 115] (* cclass *)]);
+   ([117; 102; 117; 110; 99] (* ufunc *), [[102; 117; 110; 99; 116; 105; 111; 110] (* function *)]);
+   ([108; 101; 103; 97; 99; 121; 95; 105; 109; 112; 108; 105; 99; 105; 116; 95; 110; 111; 101; 120; 99; 101; 112; 116] (* legacy_implicit_noexcept *), [[109; 111; 100; 117; 108; 101] (* module *)]);
+   ([99; 95; 99; 111; 109; 112; 105; 108; 101; 95; 103; 117; 97; 114; 100] (* c_compile_guard *), [[102; 117; 110; 99; 116; 105; 111; 110] (* function *)]);
+   ([99; 111; 110; 116; 114; 111; 108; 95; 102; 108; 111; 119; 46; 100; 111; 116; 95; 111; 117; 116; 112; 117; 116] (* control_flow.dot_output *), [[109; 111; 100; 117; 108; 101] (* module *)]);
+   ([99; 111; 110; 116; 114; 111; 108; 95; 102; 108; 111; 119; 46; 100; 111; 116; 95; 97; 110; 110; 111; 116; 97; 116; 101; 95; 100; 101; 102; 115] (* control_flow.dot_annotate_defs *), [[109; 111; 100; 117; 108; 101] (* module *)]);
+   ([102; 114; 101; 101; 116; 104; 114; 101; 97; 100; 105; 110; 103; 95; 99; 111; 109; 112; 97; 116; 105; 98; 108; 101] (* freethreading_compatible *), [[109; 111; 100; 117; 108; 101] (* module *)]);
+   ([115; 117; 98; 105; 110; 116; 101; 114; 112; 114; 101; 116; 101; 114; 115; 95; 99; 111; 109; 112; 97; 116; 105; 98; 108; 101] (* subinterpreters_compatible *), [[109; 111; 100; 117; 108; 101] (* module *)])].
+
+Definition subset (a b : list str) : bool := forallb (fun x => mem x b) a.
+Definition same_set (a b : list str) : bool := subset a b && subset b a.
+
+Definition restricted_scope (scopes : list (str * list str)) (d : str) : bool :=
+  match lookup_scopes d scopes with Some (_ :: _) => true | _ => false end.
+
+(* the immediate set of a compiler: exactly the documented signature / type decorators; no
+   behaviour directive is in it (nor among the names dropped on inheritance); and structurally,
+   only a directive whose use is restricted to particular scopes can be immediate -- a directive
+   available everywhere configures code generation for everything it encloses *)
+Definition immediate_table_ok (immediate : list str) (scopes : list (str * list str))
+           (non_inherited : list str) : bool :=
+  same_set immediate doc_immediate
+  && forallb (fun d => negb (mem d immediate) && negb (mem d non_inherited)) doc_behaviour
+  && forallb (restricted_scope scopes) immediate.
+
+Definition scopes_table_ok (scopes : list (str * list str)) : bool :=
+  forallb (fun e => match lookup_scopes (fst e) doc_scopes with
+                    | Some l => same_set (snd e) l | None => false end) scopes
+  && forallb (fun e => match lookup_scopes (fst e) scopes with Some _ => true | None => false end) doc_scopes.
+
+Definition doc_scope_ok : str -> str -> bool := scope_ok doc_scopes.
